@@ -480,9 +480,13 @@ func findPendingCmdByType[T command](c *Client) T {
 }
 
 func (c *Client) completeCommand(cmd command, err error) {
-	done := cmd.base().done
-	done <- err
-	close(done)
+	// Signal the completion last, so that the effects of the command on the
+	// client state are visible as soon as Wait returns
+	defer func() {
+		done := cmd.base().done
+		done <- err
+		close(done)
+	}()
 
 	// Ensure the command is not blocked waiting on continuation requests
 	c.mutex.Lock()
